@@ -786,6 +786,19 @@ func c39GenStream(g *core.Gen, big bool) *c39Stream {
 	return st
 }
 
+// c39GenChunks is a complete result of exactly `chunks` reader chunks (chunks-½
+// thresholds of megabyte rows): every pending chunk has to be fetched, not only the
+// first one after the threshold.
+func c39GenChunks(g *core.Gen, chunks int) *c39Stream {
+	const T = mysql.MaxPayloadLen
+	l := core.Pick(g, []int{2500000, 5000000})
+	n := (T/c39RowSize(l) + 1) * (2*chunks - 1) / 2
+	st := &c39Stream{tag: fmt.Sprintf("big-%d-chunks", chunks)}
+	st.items, st.rows, st.first = c39Body([][2]int{{n, l}, {g.Intn(3), 10}})
+	st.items = append(st.items, c39EOF)
+	return st
+}
+
 // c39Limits returns row limits around what matters for a stream.
 func c39Limit(g *core.Gen, st *c39Stream) int {
 	cands := []int{-1, -1, st.rows - 1, st.rows, st.rows + 1, st.first - 1, st.first, st.first + 1, (st.first + st.rows) / 2, 1, 10000}
@@ -849,6 +862,15 @@ func genC39(g *core.Gen) {
 		}
 		m := c39Limit(g, core.Pick(g, sts))
 		g.Emit(core.L(core.A("sh"), core.I(int64(m)), core.L(shards...)), "sh", fmt.Sprintf("sh-%d-shards", k))
+	}
+	// three and four chunks per shard, on every path, in every run
+	for _, chunks := range []int{3, 4} {
+		st := c39GenChunks(g, chunks)
+		emit("dc", st, -1)
+		emit("un", st, -1)
+		g.Emit(core.L(core.A("sh"), core.I(-1), core.L(st.sexp())), "sh", "sh-big", st.tag)
+		st2 := c39GenChunks(g, chunks)
+		g.Emit(core.L(core.A("sh"), core.I(-1), core.L(c39GenStream(g, false).sexp(), st2.sexp())), "sh", "sh-big", st2.tag)
 	}
 	nShBig := g.Scale(4, 12)
 	for i := 0; i < nShBig; i++ {
